@@ -16,14 +16,17 @@ Proof.
   induction w as [|c w IH]; simpl; intro H; [reflexivity|].
   apply andb_true_iff in H as [Hc Hw]. unfold not_blank in Hc. apply negb_true_iff in Hc. rewrite Hc, (IH Hw). reflexivity.
 Qed.
+Lemma read_word_dot_ok w rest : forallb not_blank w = true -> (match rev w with 46 :: _ => true | _ => false end) = false ->
+  read_word_dot (w ++ 32 :: rest) = (w, 32 :: rest).
+Proof. intros H1 H2. unfold read_word_dot. rewrite (read_word_ok w rest H1). destruct (rev w) as [|c r]; auto. destruct (N.eqb_spec c 46); [subst; discriminate|]. destruct c as [|p]; auto. repeat (destruct p as [p|p|]; auto). exfalso; apply n; reflexivity. Qed.
 Lemma read_term_print t rest : wf_term t = true -> read_term (print_term t ++ 32 :: rest) = Some (t, 32 :: rest).
 Proof.
   destruct t as [b|l|v a]; simpl; intro H.
   - unfold wf_iri in H. apply andb_true_iff in H as [H1 H2]. rewrite <- app_assoc. simpl. rewrite (read_iri_ok b _ H1), H2. reflexivity.
-  - apply andb_true_iff in H as [H1 H2]. rewrite (read_word_ok l rest H2), H1. reflexivity.
+  - apply andb_true_iff in H as [H H3]. apply andb_true_iff in H as [H1 H2]. apply negb_true_iff in H3. rewrite (read_word_dot_ok l rest H2 H3), H1. reflexivity.
   - rewrite <- app_assoc. simpl. rewrite read_string_escape. destruct a as [|t|i]; simpl.
     + reflexivity.
-    + apply andb_true_iff in H as [H1 H2]. rewrite (read_word_ok t rest H2), H1. reflexivity.
+    + apply andb_true_iff in H as [H H3]. apply andb_true_iff in H as [H1 H2]. apply negb_true_iff in H3. rewrite (read_word_dot_ok t rest H2 H3), H1. reflexivity.
     + unfold wf_iri in H. apply andb_true_iff in H as [H1 H2]. rewrite <- app_assoc. simpl. rewrite (read_iri_ok i _ H1), H2. reflexivity.
 Qed.
 Lemma skip_blanks_term t r : skip_blanks (print_term t ++ r) = print_term t ++ r.
